@@ -27,6 +27,7 @@ func RunC04(rep *report.Report, tier string) {
 		abs = append(abs, ID{1, 2}, ID{0, ^uint64(0)})
 	}
 	ls := MakeLetters(n, ids, []stamp{stNil, stOwn, stCur, stAbs}, abs, entries, nil)
+	ls = append(ls, MixedLetters(n, ID{0, 1})...)
 	rep.Set("alphabet", Names(ls))
 	for _, nofwd := range []bool{false, true} {
 		o := &Options{Letters: ls, Sessions: n, NoFwdRefs: nofwd, Checks: Checks{Primary: true, Election: true}}
